@@ -263,6 +263,10 @@ BENIGN = [
      '        residuals["disp_aug"] = K.dot(outputs["disp_aug"]) - inputs["forces"]',
      '        self._lup = splu(K)\n        residuals["disp_aug"] = K.dot(outputs["disp_aug"]) - inputs["forces"]',
      "refactors more often than necessary"),
+    ("b09_contour_writer_prints_more_digits", "mphys/surface_contours.py",
+     '                            file_handle.write("%f " % (mesh[i, j, k]))',
+     '                            file_handle.write("%.9f " % (mesh[i, j, k]))',
+     "the solution file carries more digits of the mesh: live and fresh files still agree"),
 ]
 
 
